@@ -120,11 +120,13 @@ struct Run {
     /// 0 relative, 1 absolute, 2 trailing slash, 3 ./relative
     outdir_form: u8,
     symlink: bool,
+    /// the output tree already holds a (longer) file at the normalised path of every benign member
+    prefill: bool,
 }
 
 impl Run {
     fn json(&self) -> Value {
-        json!({"names": self.names, "compress": self.compress, "form": self.form, "outdir_form": self.outdir_form, "preexisting_symlink": self.symlink})
+        json!({"names": self.names, "compress": self.compress, "form": self.form, "outdir_form": self.outdir_form, "preexisting_symlink": self.symlink, "preexisting_files": self.prefill})
     }
     fn from_json(v: &Value) -> Run {
         Run {
@@ -133,6 +135,7 @@ impl Run {
             form: v["form"].as_str().unwrap_or("whole").to_string(),
             outdir_form: v["outdir_form"].as_u64().unwrap_or(0) as u8,
             symlink: v["preexisting_symlink"].as_bool().unwrap_or(false),
+            prefill: v["preexisting_files"].as_bool().unwrap_or(false),
         }
     }
 }
@@ -166,6 +169,24 @@ fn exec(r: &Run, rep: &mut Report) -> Option<(Value, String)> {
     if r.symlink {
         std::fs::create_dir_all(&out).ok()?;
         std::os::unix::fs::symlink("../outside_dir", out.join("zq_a")).ok()?;
+    }
+    if r.prefill {
+        // an earlier extraction left longer files at the destinations
+        for n in &r.names {
+            if classify(n) != Class::Benign {
+                continue;
+            }
+            let mut p = out.clone();
+            for c in normalise(n) {
+                p.push(c);
+            }
+            if let Some(d) = p.parent() {
+                let _ = std::fs::create_dir_all(d);
+            }
+            let mut old = content_of(n);
+            old.extend_from_slice(&b"OLD-CONTENT-".repeat(40));
+            let _ = std::fs::write(&p, &old);
+        }
     }
     let outarg: String = match r.outdir_form {
         0 => "out".to_string(),
@@ -331,19 +352,26 @@ fn runs(thorough: bool) -> (Vec<Run>, Value) {
                 if !thorough && (of as usize + gi) % 2 == 1 && sym {
                     continue;
                 }
-                out.push(Run { names: g.clone(), compress, form: "whole".into(), outdir_form: of, symlink: sym });
+                out.push(Run { names: g.clone(), compress, form: "whole".into(), outdir_form: of, symlink: sym, prefill: false });
             }
         }
         for sym in [false, true] {
-            out.push(Run { names: g.clone(), compress, form: "glob-star".into(), outdir_form: (gi % 4) as u8, symlink: sym });
+            out.push(Run { names: g.clone(), compress, form: "glob-star".into(), outdir_form: (gi % 4) as u8, symlink: sym, prefill: false });
         }
+        // destinations already present (left by an earlier extraction) and longer than the members
+        out.push(Run { names: g.clone(), compress, form: "whole".into(), outdir_form: (gi % 4) as u8, symlink: false, prefill: true });
+        out.push(Run { names: g.clone(), compress, form: "glob-star".into(), outdir_form: ((gi + 1) % 4) as u8, symlink: false, prefill: true });
         // selected-files forms: one invocation per member (quick: the first 3 members of each group)
         for (k, n) in g.iter().enumerate() {
             if !thorough && k >= 3 {
                 break;
             }
-            out.push(Run { names: g.clone(), compress, form: format!("listed:{n}"), outdir_form: ((gi + k) % 4) as u8, symlink: k % 2 == 1 });
-            out.push(Run { names: g.clone(), compress, form: format!("glob:{n}"), outdir_form: ((gi + k + 1) % 4) as u8, symlink: k % 2 == 0 });
+            out.push(Run { names: g.clone(), compress, form: format!("listed:{n}"), outdir_form: ((gi + k) % 4) as u8, symlink: k % 2 == 1, prefill: false });
+            out.push(Run { names: g.clone(), compress, form: format!("glob:{n}"), outdir_form: ((gi + k + 1) % 4) as u8, symlink: k % 2 == 0, prefill: false });
+            if k == 0 {
+                out.push(Run { names: g.clone(), compress, form: format!("listed:{n}"), outdir_form: (gi % 4) as u8, symlink: false, prefill: true });
+                out.push(Run { names: g.clone(), compress, form: format!("glob:{n}"), outdir_form: (gi % 4) as u8, symlink: false, prefill: true });
+            }
         }
     }
     let bounds = json!({
@@ -351,7 +379,7 @@ fn runs(thorough: bool) -> (Vec<Run>, Value) {
         "grammar": "c1/.../ck, k <= 3 (thorough 4), components {.., ., empty, zq_a, zq_b, unicode, '..zq', '...', 'zq_a\\..\\zq_b' and '..\\zq_c' (ordinary single components on this platform: dots or backslashes inside a name are not path syntax), 255 x n, 300 x n}, with/without leading and trailing '/'",
         "classes": by.iter().map(|(k, v)| (format!("{k:?}"), v.len())).collect::<BTreeMap<_, _>>(),
         "archives": groups.len(),
-        "forms": "whole archive (linear), --glob '*', a listed name, --glob with the exact name; output dir argument relative / absolute / trailing slash / ./relative; output tree absent or pre-existing with a directory symlink leaving the output directory",
+        "forms": "whole archive (linear), --glob '*', a listed name, --glob with the exact name; output dir argument relative / absolute / trailing slash / ./relative; output tree absent, pre-existing with a directory symlink leaving the output directory, or pre-existing with longer files at every benign destination (each form)",
     });
     (out, bounds)
 }
